@@ -42,6 +42,18 @@ def _cases(tier, rng):
             if (w + s) % 2 == 0 or tier != 'quick':
                 yield {'kind': 'mux', 'term': [['roll', 4, 3, [['roll', w, s, [['to_list']]]]]], 'items': list(range(n))}
                 yield {'kind': 'mux', 'term': [['split', ['floordiv', 5], [['roll', w, s, [['count', True]]]]]], 'items': list(range(n))}
+    # roll fed with hand-made mux traces: key indices that appear in descending / sparse order and are reused (the slots of a
+    # key are key_index*density + offset, whatever the order in which the keys were first created)
+    yield {'kind': 'raw', 'term': [['roll', 3, 1, [['to_list']]]],
+           'trace': [['c', [2]], ['n', [2], 1], ['c', [0]], ['n', [0], 5], ['n', [2], 2], ['n', [0], 6], ['n', [2], 3], ['n', [0], 7],
+                     ['n', [2], 4], ['d', [2]], ['d', [0]]]}
+    for _ in range({'quick': 60, 'thorough': 600, 'search': 40}[tier]):
+        w, s = rng.choice([(2, 1), (3, 1), (3, 2), (4, 2), (5, 2), (4, 3), (2, 3), (3, 3)])
+        yield {'kind': 'raw', 'term': [['roll', w, s, [rng.choice([['to_list'], ['count', True]])]]],
+               'trace': muxgen.gen_trace(rng, n_events=rng.choice([10, 20, 40]))}
+    # roll nested in roll under group_by with interleaved keys: inner key indices first appear out of order
+    for (w, s) in ((3, 1), (3, 2), (4, 2)):
+        yield {'kind': 'mux', 'term': [['group_by', ['mod', 2], [['roll', 3, 1, [['roll', w, s, [['to_list']]]]]]]], 'items': list(range(14))}
     nrand = {'quick': 450, 'thorough': 3000, 'search': 300}[tier]
     for _ in range(nrand):
         r = rng.random()
@@ -68,6 +80,24 @@ def _cases(tier, rng):
 def _oracle(case, r):
     if 'harness_exc' in r:
         return 'real code raised: ' + r['harness_exc']
+    if case['kind'] == 'raw' and not r.get('raised') and not muxprop.has_fatal(r['chunks']):
+        # every lifetime of the replayed trace: the windows of its own items, in opening order, whatever its key index
+        t = case['term']
+        if not (len(t) == 1 and t[0][0] == 'roll' and t[0][3] in ([['to_list']], [['count', True]])):
+            return None
+        w, s = t[0][1], t[0][2]
+        out = [e for c in r['chunks'] for e in c]
+        hl, tl = muxprop.lifetimes(case['trace']), muxprop.lifetimes(out)
+        if len(hl) != len(tl):
+            return 'roll(%d,%d) over the trace %s: %d key lifetimes in, %d out' % (w, s, case['trace'], len(hl), len(tl))
+        for h, o in zip(hl, tl):
+            xs = h['items']
+            wins = [xs[j * s:j * s + w] for j in range((len(xs) + s - 1) // s)]
+            want = [{'l': x} for x in wins] if t[0][3] == [['to_list']] else [len(x) for x in wins]
+            if h['closed'] and (h['key'] != o['key'] or o['items'] != want):
+                return ('roll(%d,%d) on the key %s (index %d) with items %s replayed among other keys emitted %s, its windows are %s'
+                        % (w, s, h['key'], h['key'][0], xs, str(o['items'])[:200], str(want)[:200]))
+        return None
     if case['kind'] != 'mux' or r.get('raised') or muxprop.has_fatal(r['chunks']):
         return None
     v = splitoracle.check_sites(case['term'], case['items'], r.get('bounds') or {}, ('roll',))
@@ -90,7 +120,7 @@ def _oracle(case, r):
 
 def nontrivial(case, r):
     for st in muxgen.walk(case['term']):
-        if st[0] == 'roll' and len(case['items']) > st[2]:
+        if st[0] == 'roll' and len(case.get('items') or case.get('trace') or []) > st[2]:
             return True
     return False
 
@@ -102,7 +132,7 @@ def tags(case, r):
             w, s = st[1], st[2]
             t.append('stride%swindow' % ('<' if s < w else '=' if s == w else '>'))
             t.append('w%%s%s0' % ('=' if w % s == 0 else '!='))
-            if len(case['items']) >= 3 * dens(w, s) * s:
+            if len(case.get('items') or case.get('trace') or []) >= 3 * dens(w, s) * s:
                 t.append('ring-wrapped>=3')
     return t
 
